@@ -228,7 +228,42 @@ def check(tier):
         if ";sd=" in full and i.startswith("1:"):
             if full.split(";sd=")[1].split(":")[0] != i.split(":")[1]:
                 sd_diff += 1
+    # measurement: how many negative-power cases lie inside the class proved to be within one ulp
+    # (c09_neg_power_one_ulp_guarded).  (mantissa, exponent) are derived from the numeral by the rule the
+    # parser follows for numerals of at most 19 significant digits: m = the digits without the point,
+    # e = fraction length - written exponent; the guard itself is the extracted DigitProofsAccNeg.pnt_guard.
+    import re as _re
+    qs = []
+    for c in cases:
+        tk = c.split(" ")
+        if tk[0] != "P" or tk[2] == "-":
+            continue
+        try:
+            txt = "".join(chr(int(x)) for x in tk[2].split(","))
+        except ValueError:
+            continue
+        mm = _re.fullmatch(r"[+-]?(\d+)(?:\.(\d+))?(?:[eE]([+-]?\d+))?", txt)
+        if not mm:
+            continue
+        ip, fp, ex = mm.group(1), mm.group(2) or "", int(mm.group(3) or 0)
+        if len(ip) > 1 and ip[0] == "0":
+            continue
+        digs = (ip + fp).lstrip("0")
+        if not digs or len(digs) > 19 or abs(ex) > 100000:
+            continue
+        eff = len(fp) - ex
+        if eff > 0:
+            qs.append("Q %s %d" % (digs, eff))
+    guard_in = guard_n = 0
+    if qs:
+        mexe, _m = vlib.build_ocaml(dl.COMP)
+        if mexe:
+            outq, _c = vlib.run_sharded(mexe, [], [q + " x" for q in qs])
+            guard_n = len(outq)
+            guard_in = sum(1 for o in outq if o.startswith("1 "))
     rep.cov = {
+        "negative_power_cases_measured": guard_n,
+        "negative_power_cases_inside_proved_one_ulp_class": guard_in,
         "obligations": len(theorems) if theorems else 1,
         "discharged": len(theorems) if proof_ok else 0,
         "checker_cmd": "cd coq && make %so (coqc 8.16.1) ; coqc -Q . Qv %s for Print Assumptions" % (PROP_V, PROP_V),
@@ -248,7 +283,7 @@ def check(tier):
     }
     rep.assumptions = [
         "theorems are about coq/DigitModel.v; the C++ is tied by gen/Tables_digit.v and the finite differential run reported here",
-        "one ulp is PROVED for the positive power-of-ten scaling (c09_pos_power_one_ulp: every mantissa < 2^64, every exponent; exact when m*5^e < 2^53; >= 2^1024 rejected); NOT proved: the negative-power path, the offset bookkeeping that yields (mantissa, exponent) from the text, correct rounding (false: ties go up) -- these are tested against the exact-rational oracle",
+        "one ulp is PROVED for the positive power-of-ten scaling (c09_pos_power_one_ulp: every mantissa < 2^64, every exponent; exact when m*5^e < 2^53; >= 2^1024 rejected); the negative-power path has the generic scaled-integer bound (c09_neg_power_scaled_bound) and one ulp inside the guard pnt_guard (c09_neg_power_one_ulp_guarded; the evidence reports how many generated cases are inside); NOT proved: negative-power numerals outside the guard, the offset bookkeeping that yields (mantissa, exponent) from the text, correct rounding (false: ties go up) -- these are tested against the exact-rational oracle",
         "requires findings/D28, D43, D44, D45 applied to /repo",
     ]
     return rep.finish()
